@@ -2,16 +2,20 @@
    Proved for all inputs: table contents, logarithm formulas, absence of panics for all 2^64 bit patterns,
    independence of the buffer state, the exact-integer path, the positional formatter, soundness of the
    certificate checker that the engine "ryu" applies to every sampled output.
-   Interval search (items 7-10): the fixed-point multiplications are exact for all exponents and mantissas
-   except two (proved, with the exceptions exhibited); all of step 4 is correct relative to hand-over
-   conditions on step 3; the change of scale to the checker is proved.
-   NOT proved: that f2d_step3's trailing-zero flags and vp adjustment satisfy the hand-over conditions for all
-   inputs, and the exact-integer path's acceptance by the checker — so C16_shortest_full_statement below is
-   still a Definition; it is tied by certified sampling + comparison with strconv. *)
+   Interval search (items 7-12): the fixed-point multiplications are exact for all exponents and mantissas
+   except two (proved, with the exceptions exhibited); step 3's flags and vp adjustment satisfy the hand-over
+   conditions in all eight branches (item 11); all of step 4 is correct relative to them (item 8); the change
+   of scale to the checker is proved (item 9); the two exceptional floats are evaluated (item 10).
+   RESULT (item 14): C16_shortest_full_statement IS A THEOREM (C16_shortest): for every finite non-zero float,
+   every buffer and allocator behaviour the appended text renders a pair (m, e) accepted by the checker, i.e.
+   m 10^e lies in the rounding interval, no shorter decimal does, and it is the closest of its length. *)
 From QF Require Import Base.Prelude Gen.GenConsts Gen.GenRyu Model.Ryu.
 From QF Require Import Proofs.RyuTables Proofs.RyuArith Proofs.RyuAppendF Proofs.RyuExactInt Proofs.RyuNoPanic
                        Proofs.RyuShortest Proofs.RyuIntervalFrac Proofs.RyuIntervalMul
-                       Proofs.RyuIntervalFinal Proofs.RyuIntervalLoops Proofs.RyuInterval.
+                       Proofs.RyuIntervalFinal Proofs.RyuIntervalLoops Proofs.RyuInterval
+                       Proofs.RyuHandover Proofs.RyuHandoverStep3 Proofs.RyuHandoverFinal Proofs.RyuHandoverText
+                       Proofs.RyuHandoverUnique.
+From QF Require Model.JsonRead Proofs.RyuHandoverJson.
 Local Open Scope N_scope.
 
 (* 1. every entry of the two 128-bit tables and of powersOf10 is the number the algorithm needs *)
@@ -245,9 +249,10 @@ Theorem C16_off_by_one_floats_ok :
 Proof. exact exception_floats_ok. Qed.
 Print Assumptions C16_off_by_one_floats_ok.
 
-(* The full statement (NOT proved): for every finite non-zero float the pair found by the interval search
-   is accepted by the checker, i.e. the text is the shortest closest decimal.  The engine checks this on
-   every sampled float (code 2) and compares with strconv.FormatFloat. *)
+(* The full statement (proved below, item 14: C16_shortest): for every finite non-zero float the pair found by
+   the interval search or the exact-integer path is accepted by the checker, i.e. the text is the shortest
+   closest decimal.  The engine still checks this on every sampled float (code 2) against the real
+   implementation and compares with strconv.FormatFloat. *)
 Definition C16_shortest_full_statement : Prop :=
   forall (g : nat -> bytes) (b : buf) (bits : N),
     bits < 2 ^ 64 ->
@@ -258,3 +263,152 @@ Definition C16_shortest_full_statement : Prop :=
       AppendFloat64f g b bits
       = Ok {| bdata := bdata b ++ render_f (2 ^ 63 <=? bits) m e; bspare := sp |} /\
       shortest_b bits m e = true.
+
+(* 11. Stage 2 of the interval search: the hand-over conditions hold for what the model's step 3 returns, for
+   EVERY finite non-zero float other than the two of item 7 (premise mul_exception = false: the multiplier mv
+   is not one of the two exhibited pairs; mp and mm never are).  All eight branches of f2d_step3: the meaning
+   of pow5Factor64 / multipleOfPowerOfFive64 / multipleOfPowerOfTwo64, Gauss's lemma for 2^i and 5^j, the vp--
+   adjustments, 5^23 dividing none of mv, mp, mm for the parity at hand (q >= 22), and the "q - 1 bits" test
+   of the branch 1 < q < 63, which is sound only through the alternative in [handover]. *)
+Theorem C16_step3_handover (mant exp : N) (pl : plan) (st : step3) (ab : bool) :
+  mant < 2 ^ 52 -> exp <= 2046 -> ~ (exp = 0 /\ mant = 0) ->
+  let m2 := if exp =? 0 then mant else 2 ^ 52 + mant in
+  let mv := 4 * m2 in
+  let mm := mv - (if (mant =? 0) && (1 <? exp) then 1 else 2) in
+  mul_exception exp mv = false ->
+  plan_of exp = Ok pl -> f2d_step3 mant exp = Ok (st, ab) ->
+  ab = N.even m2 /\ s_e10 st = p_e10 pl /\
+  handover ab mv mm (mv + 2) (fst (ratio pl (e2_of exp))) (snd (ratio pl (e2_of exp))) st.
+Proof. exact (step3_handover mant exp pl st ab). Qed.
+Print Assumptions C16_step3_handover.
+Example C16_step3_handover_example :      (* 0.1 and 5e-324 satisfy the premises *)
+  mul_exception 1019 (4 * (2 ^ 52 + 0x999999999999A)) = false /\ mul_exception 0 (4 * 1) = false /\
+  (exists pl st ab, plan_of 0 = Ok pl /\ f2d_step3 1 0 = Ok (st, ab)).
+Proof. split; [reflexivity|]. split; [reflexivity|]. vm_compute. eauto. Qed.
+
+(* the arithmetic helpers of step 3 decide divisibility *)
+Theorem C16_multipleOfPowerOfFive64_ok (v p : N) :
+  v <> 0 -> v < 2 ^ 64 -> multipleOfPowerOfFive64 v p = Ok (v mod 5 ^ p =? 0).
+Proof. exact (multipleOfPowerOfFive64_spec v p). Qed.
+Print Assumptions C16_multipleOfPowerOfFive64_ok.
+Theorem C16_multipleOfPowerOfTwo64_ok (v p : N) :
+  v <> 0 -> multipleOfPowerOfTwo64 v p = (v mod 2 ^ p =? 0).
+Proof. exact (multipleOfPowerOfTwo64_spec v p). Qed.
+Print Assumptions C16_multipleOfPowerOfTwo64_ok.
+
+(* 12. The interval search, closed: for EVERY finite non-zero float (all 2046 * 2^52 + 2^52 - 1 of them per
+   sign) float64ToDecimal returns a pair accepted by the certificate checker.  Items 7, 8, 9, 11 combined; the
+   two floats of item 7 by evaluation (item 10). *)
+Theorem C16_float64ToDecimal_shortest (mant exp : N) :
+  mant < 2 ^ 52 -> exp <= 2046 -> ~ (exp = 0 /\ mant = 0) ->
+  exists m e, float64ToDecimal mant exp = Ok (m, e) /\ shortest_b (exp * 2 ^ 52 + mant) m e = true.
+Proof. exact (float64ToDecimal_shortest mant exp). Qed.
+Print Assumptions C16_float64ToDecimal_shortest.
+Example C16_float64ToDecimal_shortest_example :   (* the smallest subnormal: 5e-324 *)
+  float64ToDecimal 1 0 = Ok (5, (-324)%Z) /\ shortest_b (0 * 2 ^ 52 + 1) 5 (-324) = true.
+Proof. vm_compute. split; reflexivity. Qed.
+
+(* 13. The exact-integer path returns a pair accepted by the checker (the value is m 10^e exactly; every other
+   candidate of the grid and of the next coarser grid is a whole grid step >= 1 ulp away). *)
+Theorem C16_exact_int_shortest (mant exp m : N) (e : Z) :
+  mant < 2 ^ 52 -> exp < 2048 ->
+  float64ToDecimalExactInt mant exp = Ok (Some (m, e)) ->
+  shortest_b (exp * 2 ^ 52 + mant) m e = true.
+Proof. exact (exact_int_shortest mant exp m e). Qed.
+Print Assumptions C16_exact_int_shortest.
+Example C16_exact_int_shortest_example :      (* 1500.0 *)
+  float64ToDecimalExactInt 0x7700000000000 1033 = Ok (Some (15, 2%Z)) /\
+  shortest_b (1033 * 2 ^ 52 + 0x7700000000000) 15 2 = true.
+Proof. vm_compute. split; reflexivity. Qed.
+
+(* 14. THE FULL STATEMENT is a theorem: for every bit pattern of a finite non-zero float64, every buffer
+   (contents, spare capacity, stale bytes) and every behaviour of the allocator, AppendFloat64f appends the
+   positional rendering of a pair (m, e) accepted by the certificate checker — by item 6: m 10^e lies in the
+   rounding interval of the float (so a correctly rounding parser returns the identical float), no decimal with
+   fewer digits does, and no other decimal of that length in the interval is closer (ties: m even). *)
+Theorem C16_shortest : C16_shortest_full_statement.
+Proof. exact AppendFloat64f_shortest. Qed.
+Print Assumptions C16_shortest.
+Example C16_shortest_example :        (* -pi satisfies the premises; its pair is (3141592653589793, -15) *)
+  let bits := 0xC00921FB54442D18 in
+  bits < 2 ^ 64 /\ (bits / 2 ^ 52) mod 2048 <> 2047 /\ ~ ((bits / 2 ^ 52) mod 2048 = 0 /\ bits mod 2 ^ 52 = 0) /\
+  ryu_text bits = render_f (2 ^ 63 <=? bits) 3141592653589793 (-15) /\
+  shortest_b bits 3141592653589793 (-15) = true.
+Proof. vm_compute. repeat split; try discriminate. intros [K _]. discriminate K. Qed.
+
+(* 15. What C14 (JSON read-back) needs of C16, in the very form of Proofs/JsonDocProofs.ryu_in_interval: the
+   decimal that Model/JsonRead.float_decimal computes for a bit pattern lies in the rounding interval of the
+   float (so a correctly rounding ParseFloat reads the JSON text back as the identical float64). *)
+Theorem C16_ryu_in_interval :
+  forall bits m e fd, bits < 2 ^ 64 -> decode_float bits = Some fd -> JsonRead.float_decimal bits = Ok (m, e) ->
+    RyuShortest.sc_in fd e m = true.
+Proof. exact RyuHandoverJson.ryu_in_interval_holds. Qed.
+Print Assumptions C16_ryu_in_interval.
+Example C16_ryu_in_interval_example :      (* 0.1 *)
+  exists fd, decode_float 0x3FB999999999999A = Some fd /\
+             JsonRead.float_decimal 0x3FB999999999999A = Ok (1, (-1)%Z) /\ RyuShortest.sc_in fd (-1) 1 = true.
+Proof. eexists. split; [vm_compute; reflexivity|]. split; vm_compute; reflexivity. Qed.
+
+(* 16. The text level.  parse_f (the reader of the engine's oracle) inverts the positional rendering of every
+   (sign, m, e) with m free of trailing zeros; an accepted m has none. *)
+Theorem C16_parse_render (neg : bool) (m : N) (e : Z) :
+  0 < m -> m mod 10 <> 0 -> parse_f (render_f neg m e) = Some (neg, m, e).
+Proof. exact (parse_render neg m e). Qed.
+Print Assumptions C16_parse_render.
+Example C16_parse_render_example :
+  parse_f (render_f true 15 2) = Some (true, 15, 2%Z) /\ parse_f (render_f false 1234 (-6)) = Some (false, 1234, (-6)%Z).
+Proof. vm_compute. split; reflexivity. Qed.
+
+Theorem C16_shortest_no_trailing_zero (bits m : N) (k : Z) :
+  shortest_b bits m k = true -> 0 < m /\ m mod 10 <> 0.
+Proof. exact (shortest_b_no_trailing_zero bits m k). Qed.
+Print Assumptions C16_shortest_no_trailing_zero.
+
+(* 17. The STRONGER full statement — the whole property text at the level of the model: for every one of the
+   2^64 bit patterns other than NaN (both infinities, both zeros, subnormals, normals), every buffer and every
+   allocator behaviour, AppendFloat64f keeps the old contents and appends a text that the property oracle of
+   the engine accepts (oracle_f: "+Inf" / "-Inf" / "0" / "-0" literally; otherwise the text parses to
+   (sign, m, e), is the canonical positional rendering of it — no exponent notation, no superfluous zeros —
+   and (m, e) passes the certificate checker of item 6: in the rounding interval, shortest, closest). *)
+Definition C16_text_full_statement : Prop :=
+  forall (g : nat -> bytes) (b : buf) (bits : N),
+    bits < 2 ^ 64 ->
+    ~ ((bits / 2 ^ 52) mod 2048 = 2047 /\ bits mod 2 ^ 52 <> 0) ->
+    exists text sp,
+      AppendFloat64f g b bits = Ok {| bdata := bdata b ++ text; bspare := sp |} /\
+      oracle_f bits text = true.
+Theorem C16_text : C16_text_full_statement.
+Proof. exact AppendFloat64f_oracle. Qed.
+Print Assumptions C16_text.
+Example C16_text_example :       (* -Inf, -0 and 1e23 satisfy the premises *)
+  oracle_f 0xFFF0000000000000 (ryu_text 0xFFF0000000000000) = true /\
+  oracle_f 0x8000000000000000 (ryu_text 0x8000000000000000) = true /\
+  ryu_text 0x44B52D02C7E14AF6 = bs 24 0x313030303030303030303030303030303030303030303030 /\
+  oracle_f 0x44B52D02C7E14AF6 (ryu_text 0x44B52D02C7E14AF6) = true.
+Proof. vm_compute. repeat split. Qed.
+
+(* 18. The specification determines the text.  The certificate checker accepts AT MOST ONE pair per float (the
+   interval test is independent of the decimal grid; a candidate on a coarser grid would be a multiple of 10 on
+   the finer one; on one grid two equally close candidates would be adjacent and both even).  Hence a text that
+   the oracle accepts for a bit pattern IS the text the model writes: any other printer that meets the same
+   specification (shortest, closest, ties to even, positional, canonical) — strconv.FormatFloat(f,'f',-1,64)
+   is specified that way — produces the same bytes.  (That strconv meets it is compared by the engine.) *)
+Theorem C16_shortest_unique (bits m m' : N) (k k' : Z) :
+  shortest_b bits m k = true -> shortest_b bits m' k' = true -> m = m' /\ k = k'.
+Proof. exact (shortest_b_unique bits m m' k k'). Qed.
+Print Assumptions C16_shortest_unique.
+Example C16_shortest_unique_example :      (* 0.3 = 0x3FD3333333333333: accepted (3, -1); (30, -2), (2, -1) are not *)
+  shortest_b 0x3FD3333333333333 3 (-1) = true /\ shortest_b 0x3FD3333333333333 30 (-2) = false /\
+  shortest_b 0x3FD3333333333333 2 (-1) = false /\ shortest_b 0x3FD3333333333333 29999999999999999 (-17) = false.
+Proof. vm_compute. repeat split. Qed.
+
+Theorem C16_oracle_unique (bits : N) (text : bytes) :
+  bits < 2 ^ 64 ->
+  ~ ((bits / 2 ^ 52) mod 2048 = 2047 /\ bits mod 2 ^ 52 <> 0) ->
+  oracle_f bits text = true -> text = ryu_text bits.
+Proof. exact (oracle_f_unique bits text). Qed.
+Print Assumptions C16_oracle_unique.
+Example C16_oracle_unique_example :        (* "0.3" is accepted for 0.3, "0.30" and "0.29999999999999999" are not *)
+  oracle_f 0x3FD3333333333333 (bs 3 0x302e33) = true /\ oracle_f 0x3FD3333333333333 (bs 4 0x302e3330) = false /\
+  oracle_f 0x3FD3333333333333 (bs 19 0x302e3239393939393939393939393939393939) = false.
+Proof. vm_compute. repeat split. Qed.
